@@ -25,6 +25,10 @@ func (s *Server) serveStream(ctx context.Context, r io.Reader, w io.Writer, req 
 		}
 		emptySchema := arrow.NewSchema(nil, nil)
 		s.logIPCWriteErr("error-response", req.Method, writeErrorResponse(w, emptySchema, handlerErr, s.serverID, req.RequestID, s.debugErrors))
+		// The client has already sent (or will send) its input stream for
+		// this call; left on the transport it would be read as the next
+		// request. Every other error exit of a stream call drains it too.
+		drainInputStream(r)
 		return handlerErr, nil
 	}
 
